@@ -463,6 +463,8 @@ def verdictOk (mn : Mon) (sigs : List (Signer × Nat)) (auth : List Nat) (ctxs :
     some s!"site=c03.sound.enforce enforce calls {showLogL (o.log.filter LEv.isE)} but the first satisfied rules require {showLogL (expEnforce (sigs.map Prod.fst) (chosenOf mn (sigs.map Prod.fst) ctxs))}"
   else if o.log.filter LEv.isC != expCans mn (sigs.map Prod.fst) ctxs then
     some s!"site=c03.precedence can_enforce calls {showLogL (o.log.filter LEv.isC)} but precedence order asks {showLogL (expCans mn (sigs.map Prod.fst) ctxs)}"
+  else if !enforceAllowed mn.mocks [] (expEnforcePols (chosenOf mn (sigs.map Prod.fst) ctxs)) then
+    some s!"site=c03.sound.enforce-refused accepted although an enforcement hook of a chosen rule refuses (chosen={showChosen (chosenOf mn (sigs.map Prod.fst) ctxs)}): the policy was not enforced"
   else none
 
 /-- a REJECTED check: completeness, foreign signers -/
